@@ -9,8 +9,5 @@ CONSTANTS
   Ops <- MC_AllOps
   ReqVers <- MC_V4
   Lazies <- MC_Both
-  Known <- MC_KnownDesign
+  Known <- MC_Skip
 CHECK_DEADLOCK FALSE
-INVARIANT ImplMeetsProperty
-INVARIANT OneVersionPerNs
-INVARIANT DepsClosedInv
